@@ -24,7 +24,13 @@ def run_case(params, prefix):
         fails.append((base + "|error", f"{ex.error[0]}: {ex.error[1]!r}"))
     else:
         counts, fexec = _recov.summarize(res)
-        if res.get("raised"):
+        per_job = {}
+        for j, _, _ in run_.failure_log:
+            per_job[j] = per_job.get(j, 0) + 1
+        limit = (params.get("fm") or {}).get("config", {}).get("max_retries", 1 << 30)
+        if res.get("raised") and max(per_job.values(), default=0) >= limit:
+            pass  # some job failed (injected + collateral failures) as often as the retry limit allows: aborting is right
+        elif res.get("raised"):
             fails.append((_recov.raised_key(params, run_, base), f"run() raised {res['raised']}; failures {run_.failure_log}; executions {run_.exec_log}"))
         elif res.get("ret_content") != res["expected"]:
             fails.append((base + "|outputs", f"outputs {res.get('ret_content')} differ from the failure-free run {res['expected']}; "
@@ -37,9 +43,15 @@ def run_case(params, prefix):
                     refailed = sorted({x[0] for x in run_.failure_log if x[0] != j
                                        and sum(1 for y in run_.failure_log if y[0] == x[0]) > 1})
                     key = base + f"|producer-rerun-too-often|{j.rsplit('/', 1)[0]}"
+                    late = [x for x in run_.failure_log if x[2] == "collateral:no-source" and x[0] != j]
                     if refailed:
                         # genuine (minor) defect recorded in known_findings.json: keyed by cause and program
                         key = (f"C19|producer-rerun-too-often|cause=consumer-fails-again-after-its-inputs-were-regenerated|"
+                               f"prog={params['spec']['prog']}")
+                    elif late:
+                        # same root, other entry point: a consumer that had not started yet finds no source for its input
+                        # (collateral failure) AFTER an earlier recovery regenerated it; its recovery rolls the producer back again
+                        key = (f"C19|producer-rerun-too-often|cause=late-consumer-finds-no-source-after-the-producer-was-regenerated|"
                                f"prog={params['spec']['prog']}")
                     fails.append((key,
                                   f"{j} executed {n} times: 1 + {fexec.get(j, 0)} own failures + {run_.loss_events.get(j, 0)} "
